@@ -730,6 +730,14 @@ impl<D: DependencyProvider, RT: AsyncRuntime> Solver<D, RT> {
             decision: (VariableId, VariableId, ClauseId),
         }
 
+        #[cfg(feature = "verif-hooks")]
+        self.state
+            .decision_tracker
+            .verif_events
+            .push(crate::verif::VerifEvent::Decide(
+                self.state.clauses.kinds.len() as u32,
+            ));
+
         let mut best_decision: Option<PossibleDecision> = None;
         for (&solvable_id, requirements) in self.state.requires_clauses.iter() {
             let is_explicit_requirement = solvable_id == VariableId::root();
